@@ -42,7 +42,7 @@ def source_hash(repo=REPO):
             h.update(f.read())
         h.update(b"\0")
     # the driver is part of the key: a rebuilt extractor invalidates cached facts
-    for p in (os.path.join(VERIF, "tsgfacts", "src", "main.rs"),):
+    for p in (os.path.join(VERIF, "tsgfacts", "src", "main.rs"), os.path.join(VERIF, "tsgfacts", "control", "src", "lib.rs")):
         with open(p, "rb") as f:
             h.update(f.read())
     return h.hexdigest()
@@ -92,6 +92,35 @@ def run_extraction(repo, out_dir, target_dir, nonce):
     return r
 
 
+CONTROL_TARGET = os.path.join(CACHE, "control-target")
+
+
+def run_control_extraction(repo, out_dir, nonce):
+    """the positive-control crate (tsgfacts/control) goes through the same driver into the same fact directory"""
+    cdir = os.path.join(VERIF, "tsgfacts", "control")
+    lock = os.path.join(repo, "Cargo.lock")
+    if os.path.exists(lock):
+        shutil.copy(lock, os.path.join(cdir, "Cargo.lock"))
+    fp = os.path.join(CONTROL_TARGET, "debug", ".fingerprint")
+    if os.path.isdir(fp):
+        for n in os.listdir(fp):
+            if n.startswith("tsg-control-"):
+                shutil.rmtree(os.path.join(fp, n), ignore_errors=True)
+    env = dict(os.environ)
+    env.update({
+        "LD_LIBRARY_PATH": os.path.join(sysroot(), "lib") + ":" + env.get("LD_LIBRARY_PATH", ""),
+        "RUSTFLAGS": "-Zmir-opt-level=0 -Awarnings",
+        "RUSTC_WORKSPACE_WRAPPER": DRIVER,
+        "TSGFACTS_OUT": out_dir,
+        "TSGFACTS_NONCE": nonce,
+        "TSGFACTS_CRATES": "tsg_control",
+        "CARGO_TARGET_DIR": CONTROL_TARGET,
+        "CARGO_NET_OFFLINE": "true",
+    })
+    return subprocess.run(["cargo", "+nightly", "check", "--offline", "--manifest-path", os.path.join(cdir, "Cargo.toml")],
+                          env=env, stdout=subprocess.PIPE, stderr=subprocess.STDOUT, text=True)
+
+
 def ensure_facts(repo=REPO, force=False, fresh_target=False, cold=False):
     """returns (facts_dir, info dict)"""
     os.makedirs(CACHE, exist_ok=True)
@@ -108,7 +137,7 @@ def ensure_facts(repo=REPO, force=False, fresh_target=False, cold=False):
         if cold and not os.path.exists(os.path.join(facts_dir, "cold")):
             force = True
             fresh_target = True
-        if not force and os.path.exists(lib) and os.path.exists(binf) and os.path.exists(os.path.join(facts_dir, "nonce")):
+        if not force and os.path.exists(lib) and os.path.exists(binf) and os.path.exists(os.path.join(facts_dir, "tsg_control-lib.json")) and os.path.exists(os.path.join(facts_dir, "nonce")):
             return facts_dir, {"cached": True, "sha256": sha, "extract_s": 0.0, "cold": os.path.exists(os.path.join(facts_dir, "cold"))}
         nonce = uuid.uuid4().hex
         tmp_out = os.path.join(CACHE, "facts", "tmp-" + nonce)
@@ -134,6 +163,11 @@ def ensure_facts(repo=REPO, force=False, fresh_target=False, cold=False):
                     head = f.read(400)
                 if nonce not in head:
                     raise SystemExit("tsgfacts: stale fact file %s (nonce mismatch)" % name)
+            rc = run_control_extraction(repo, tmp_out, nonce)
+            cp = os.path.join(tmp_out, "tsg_control-lib.json")
+            if rc.returncode != 0 or not os.path.exists(cp) or nonce not in open(cp, encoding="utf-8").read(400):
+                sys.stderr.write(rc.stdout[-3000:])
+                raise SystemExit("tsgfacts: the positive-control crate was not analysed; no facts, no verdict")
             with open(os.path.join(tmp_out, "nonce"), "w") as f:
                 f.write(nonce)
             if fresh_target:
